@@ -25,6 +25,9 @@ static void on_diag(void);
 #ifndef KSET
 #define KSET 0x1fffff      // bit k set: operand-operator kind k (R_* code) is included in h_d2_*
 #endif
+#ifndef DZSET
+#define DZSET ((1 << R_ADD) | (1 << R_NEG) | (1 << R_COND) | (1 << R_SHL) | (1 << R_DIV))  // dividend kinds in h_divzero_*
+#endif
 #ifndef MASK
 #define MASK 7             // bit i set: operand i of the root is an operator node (else a leaf)
 #endif
@@ -33,7 +36,7 @@ static void on_diag(void);
 #endif
 #define R_CASTROOT 100  // root code for "cast of one operand" (cast type symbolic)
 
-typedef struct { uint8_t lit; uint8_t cast; int64_t val; } LeafIn;
+typedef struct { uint8_t lit; uint8_t cast; int64_t val; uint8_t anchor; int8_t delta; } LeafIn;
 typedef struct { LeafIn l[3]; } OperandIn;
 typedef struct { OperandIn c[3]; uint8_t root_cast; } CaseIn;
 struct IN_t { CaseIn t[R_NOPS + 1]; uint8_t sel; } IN;   // slot R_NOPS: the depth-1 case
@@ -60,27 +63,44 @@ static NodeKind kind_of(int op) {
 static int arity(int op) { return op == R_COND ? 3 : (op == R_NEG || op == R_BITNOT || op == R_NOT || op == R_CASTROOT) ? 1 : 2; }
 
 // restrict one operand of * / % to 8 bits (stated bound; SAT cannot do 64x64 multiplier equivalence)
+static bool NARROW;
 static void mul_bound(int op, RV a, RV b) {
+  if (NARROW) return;   // the narrow literal domain is already small
   if (op == R_MUL) __CPROVER_assume(b.v >= -128 && b.v <= 127);
   if (op == R_DIV || op == R_MOD) __CPROVER_assume(b.v >= -128 && b.v <= 127 && (a.v >> 16) == 0);
 }
 
 // ---- leaf: reference value and real node
+// Depth-1 harnesses use ANY value of the literal's type (l->val).  Depth-2 harnesses (NARROW) use the
+// neighbourhoods [-4,3] of the anchors 0, +-2^7, +-2^8, +-2^15, +-2^16, +-2^31, +-2^32, +-2^63,
+// wrapped into the literal's type: every promotion/truncation/sign boundary, few free bits for SAT.
+// Roots * / % use the narrow domain at depth 1 too (64-bit multiplier/divider equivalence is out of
+// reach of SAT); with the wide domain they would need mul_bound().
+static int64_t leaf_val(const LeafIn *l, RT t) {
+  if (!NARROW) {
+    // representation invariant of ND_NUM: val = mathematical value (unsigned long: bit pattern)
+    __CPROVER_assume(l->val == r_canon(t, (uint64_t)l->val));
+    return l->val;
+  }
+  static const uint64_t anchor[16] = {0, 1ULL << 7, 1ULL << 8, 1ULL << 15, 1ULL << 16, 1ULL << 31, 1ULL << 32,
+                                      1ULL << 63, 0, -(1ULL << 7), -(1ULL << 8), -(1ULL << 15), -(1ULL << 16),
+                                      -(1ULL << 31), -(1ULL << 32), (1ULL << 63) - 1};
+  __CPROVER_assume(l->anchor < 16 && l->delta >= -4 && l->delta <= 3);
+  return r_canon(t, anchor[l->anchor] + (uint64_t)(int64_t)l->delta);
+}
 static RV ref_leaf(const LeafIn *l) {
-  // literal types the tokenizer produces: int, unsigned, long, unsigned long (6.4.4.1p5); the value
-  // is in range of its type (representation invariant of ND_NUM: val = mathematical value, unsigned
-  // long as bit pattern)
+  // literal types the tokenizer produces: int, unsigned, long, unsigned long (6.4.4.1p5)
   __CPROVER_assume(l->lit <= 3);
   RT t = rt_sel(l->lit == 0 ? 4 : l->lit == 1 ? 8 : l->lit == 2 ? 5 : 9);
-  __CPROVER_assume(l->val == r_canon(t, (uint64_t)l->val));
-  RV v = {t, l->val, true};
+  RV v = {t, leaf_val(l, t), true};
   __CPROVER_assume(l->cast <= 9);
   if (!CASTSET) __CPROVER_assume(l->cast != 1);
   if (l->cast) v = r_conv(v, rt_sel(l->cast));      // cast 0 = no cast = identity cast to the literal's type
   return v;
 }
 static Node *node_leaf(const LeafIn *l) {
-  Node *n = new_num(l->val, NULL);                       // as primary() does for TK_NUM
+  RT t = rt_sel(l->lit == 0 ? 4 : l->lit == 1 ? 8 : l->lit == 2 ? 5 : 9);
+  Node *n = new_num(leaf_val(l, t), NULL);               // as primary() does for TK_NUM
   n->ty = l->lit == 0 ? ty_int : l->lit == 1 ? ty_uint : l->lit == 2 ? ty_long : ty_ulong;
   // as cast() does.  "No cast" is built as the identity cast to the literal's own type so that the
   // node shape stays concrete for the symbolic executor (eval2 of a bare ND_NUM is the inner step).
@@ -100,8 +120,8 @@ static RV ref_operand(const OperandIn *c, int k) {
 static Node *mk_op(int op, Node *a, Node *b, Node *d, int root_cast, bool is_root) {
   // the constructors the parser uses: add() -> new_add/new_sub, cast() -> new_cast, conditional(),
   // unary() -> new_unary, everything else -> new_binary.  new_add/new_sub (which reduce to
-  // new_binary(ND_ADD/ND_SUB) on integer operands) are run at the root only: their pointer-arithmetic
-  // paths make the returned node's kind symbolic for cbmc, which is affordable once per tree.
+  // new_binary(ND_ADD/ND_SUB) on integer operands) are run at the root of the depth-1 harnesses only:
+  // their pointer-arithmetic paths make the returned node's kind symbolic for cbmc.
   if (op == R_CASTROOT) return new_cast(a, real_ty(root_cast));
   if (op == R_ADD && is_root) return new_add(a, b, NULL);
   if (op == R_SUB && is_root) return new_sub(a, b, NULL);
@@ -133,7 +153,7 @@ static void on_diag(void) {
 
 // one case: root operator `root` over operands that are operator nodes of kind k (where MASK has the
 // operand's bit) or leaves.  root, k, mask are compile-time constants at every call site.
-static void fold_case(int root, int k, int mask, const CaseIn *in) {
+static void fold_case(int root, int k, int mask, const CaseIn *in, bool real_add) {
   RV o[3], want;
   int ar = arity(root);
   for (int i = 0; i < 3; i++)
@@ -150,7 +170,7 @@ static void fold_case(int root, int k, int mask, const CaseIn *in) {
   Node *n[3] = {0};
   for (int i = 0; i < 3; i++)
     if (i < ar) n[i] = node_operand(&in->c[i], (mask >> i & 1) ? k : -1);
-  Node *rootn = mk_op(root, n[0], n[1], n[2], in->root_cast, true);
+  Node *rootn = mk_op(root, n[0], n[1], n[2], in->root_cast, real_add);
   int64_t got = eval(rootn);
   VASSERT(got == want.v, "eval() equals the C11 value of the expression (canonical at its C11 type)");
 }
@@ -158,12 +178,13 @@ static void fold_case(int root, int k, int mask, const CaseIn *in) {
 static void d2_cases(int root) {
   for (int k = 0; k < R_NOPS; k++)
     if (KSET >> k & 1)
-      fold_case(root, k, MASK, &IN.t[k]);
+      fold_case(root, k, MASK, &IN.t[k], false);
 }
 
 #define DEF_ROOT(name, R) \
-  void h_d1_##name(void) { HAVOC_IN(); fold_case(R, -1, 0, &IN.t[R_NOPS]); VCOVER(); } \
-  void h_d2_##name(void) { HAVOC_IN(); d2_cases(R); VCOVER(); }
+  void h_d1_##name(void) { HAVOC_IN(); NARROW = (R == R_MUL || R == R_DIV || R == R_MOD); \
+                           fold_case(R, -1, 0, &IN.t[R_NOPS], true); VCOVER(); } \
+  void h_d2_##name(void) { HAVOC_IN(); NARROW = true; d2_cases(R); VCOVER(); }
 DEF_ROOT(add, R_ADD)       DEF_ROOT(sub, R_SUB)       DEF_ROOT(mul, R_MUL)     DEF_ROOT(div, R_DIV)
 DEF_ROOT(mod, R_MOD)       DEF_ROOT(bitand, R_BITAND) DEF_ROOT(bitor, R_BITOR) DEF_ROOT(bitxor, R_BITXOR)
 DEF_ROOT(shl, R_SHL)       DEF_ROOT(shr, R_SHR)       DEF_ROOT(eq, R_EQ)       DEF_ROOT(ne, R_NE)
@@ -175,9 +196,11 @@ DEF_ROOT(cond, R_COND)     DEF_ROOT(cast, R_CASTROOT)
 // The dividend is a leaf (sel == R_NOPS) or an operator node of kind sel over leaves; one case per path.
 static void divzero(int op) {
   HAVOC_IN();
+  NARROW = true;
   __CPROVER_assume(IN.sel <= R_NOPS);
   for (int k = 0; k <= R_NOPS; k++) {
     if (IN.sel != k) continue;
+    if (k < R_NOPS && !(DZSET >> k & 1)) continue;
     int kk = k == R_NOPS ? -1 : k;
     RV a = ref_operand(&IN.t[k].c[0], kk);
     RV b = ref_leaf(&IN.t[k].c[1].l[0]);
